@@ -11,7 +11,7 @@ CONSTANTS
   P1Names = {"int", "uint", "eu", "cint", "pint", "pcint", "a2int", "a2cint", "fvi"}
   P2Names = {"int", "pint"}
   FnRetNames = {"int", "uint", "void", "S1"}
-  Devs = {"CompositeIsFirst", "ArrayQualOnArrayType"}
+  Devs = {"CompositeIsFirst", "ArrayQualOnArrayType", "FoldedCondKeepsDecay", "FoldedNullVoidPtrIsNpc"}
   Emit = TRUE
   EmitLeafNames = {"int", "uint", "eu", "S1", "void"}
 INVARIANTS Inv_Refines Inv_Reflexive Inv_Emit
